@@ -212,22 +212,21 @@ theorem pfStep_str {base : Nat} {seen : List (Ind G α)} {h : HoF G α} (hs : St
 
 /-- Hypotheses for the Pareto archive: the similarity operator is reflexive and symmetric and does
 not look at object identity; every fitness of the universe `U` has `n` objectives. -/
-structure PfHyp (sim : Ind G α → Ind G α → Bool) (n : Nat) (U : List (Ind G α)) : Prop where
-  refl : ∀ x, sim x x = true
-  symm : ∀ x y, sim x y = true → sim y x = true
-  same : ∀ x x' y y', same x x' → same y y' → sim x y = sim x' y'
+structure PfHyp (sim : Ind G α → Ind G α → Bool) (n : Nat) (U : List (Ind G α)) : Prop extends SimBase sim where
   len : ∀ x ∈ U, x.fit.wvalues.length = n
 
 /-- equal fitness and similar -/
 def Twin (sim : Ind G α → Ind G α → Bool) (a b : Ind G α) : Prop := a.fit = b.fit ∧ sim a b = true
 
-structure PSem (sim : Ind G α → Ind G α → Bool) (seen : List (Ind G α)) (h : HoF G α) : Prop where
-  anti : ∀ a ∈ h.items, ∀ b ∈ h.items, dom a.fit b.fit = false
-  notwin : h.items.Pairwise (fun a b => ¬ Twin sim a b)
-  cover : ∀ x ∈ seen, (∃ it ∈ h.items, dom it.fit x.fit = true) ∨ (∃ it ∈ h.items, Twin sim x it)
+/-- members mutually non-dominated -/
+def Anti (h : HoF G α) : Prop := ∀ a ∈ h.items, ∀ b ∈ h.items, dom a.fit b.fit = false
 
-theorem psem_empty (m base : Nat) : PSem sim ([] : List (Ind G α)) (empty m base : HoF G α) :=
-  ⟨by simp [empty], by simp [empty], by simp⟩
+def NoTwin (sim : Ind G α → Ind G α → Bool) (h : HoF G α) : Prop :=
+  h.items.Pairwise (fun a b => ¬ Twin sim a b)
+
+/-- every individual seen is dominated by a member or has a twin member -/
+def Cover (sim : Ind G α → Ind G α → Bool) (seen : List (Ind G α)) (h : HoF G α) : Prop :=
+  ∀ x ∈ seen, (∃ it ∈ h.items, dom it.fit x.fit = true) ∨ (∃ it ∈ h.items, Twin sim x it)
 
 variable {sim} {ind}
 
@@ -235,20 +234,19 @@ theorem eqtwin_iff (x y : Ind G α) :
     (Fitness.eq x.fit y.fit && sim x y) = true ↔ Twin sim x y := by
   simp [Twin, eq_iff]
 
-theorem pfStep_sem {n base : Nat} {U seen : List (Ind G α)} {h h' : HoF G α} (hh : PfHyp sim n U)
-    (hs : Str base seen h) (hsem : PSem sim seen h) (hU : ∀ x ∈ seen ++ [ind], x ∈ U)
-    (e : pfStep sim h ind = some h') : PSem sim (seen ++ [ind]) h' := by
-  have hlen_ind : ind.fit.wvalues.length = n := hh.len ind (hU ind (by simp))
+/-- One iteration of `ParetoFront.update`: the antichain needs only equal numbers of objectives;
+"no twins" needs a symmetric identity-blind similarity; the cover needs reflexivity as well. -/
+theorem pfStep_sem {n base : Nat} {U seen : List (Ind G α)} {h h' : HoF G α}
+    (hlen : ∀ x ∈ U, x.fit.wvalues.length = n)
+    (hs : Str base seen h) (hanti : Anti h) (hU : ∀ x ∈ seen ++ [ind], x ∈ U)
+    (e : pfStep sim h ind = some h') :
+    Anti h' ∧ (SimSym sim → NoTwin sim h → NoTwin sim h') ∧
+      (SimBase sim → Cover sim seen h → Cover sim (seen ++ [ind]) h') := by
+  have hlen_ind : ind.fit.wvalues.length = n := hlen ind (hU ind (by simp))
   have hlen_it : ∀ it ∈ h.items, it.fit.wvalues.length = n := by
     intro it hit
     obtain ⟨x, hx, sx⟩ := hs.origin it hit
-    rw [sx.2]; exact hh.len x (hU x (by simp [hx]))
-  have cover_old : ∀ {h2 : HoF G α}, (∀ it ∈ h.items, it ∈ h2.items) →
-      ∀ x ∈ seen, (∃ it ∈ h2.items, dom it.fit x.fit = true) ∨ (∃ it ∈ h2.items, Twin sim x it) := by
-    intro h2 hsub x hx
-    rcases hsem.cover x hx with ⟨it, hit, hd⟩ | ⟨it, hit, ht⟩
-    · exact Or.inl ⟨it, hsub it hit, hd⟩
-    · exact Or.inr ⟨it, hsub it hit, ht⟩
+    rw [sx.2]; exact hlen x (hU x (by simp [hx]))
   by_cases hA : ∃ hofer ∈ h.items, dom hofer.fit ind.fit = true
   · -- some member dominates `ind`
     obtain ⟨hofer, hhof, hdom⟩ := hA
@@ -258,23 +256,23 @@ theorem pfStep_sem {n base : Nat} {U seen : List (Ind G α)} {h h' : HoF G α} (
       | false => rfl
       | true =>
         have := dom_trans (hlen_it _ hhof) hlen_ind (hlen_it _ hx) hdom hq
-        rw [hsem.anti hofer hhof x hx] at this; exact absurd this (by simp)
+        rw [hanti hofer hhof x hx] at this; exact absurd this (by simp)
     have h2 : ∀ x ∈ h.items, Fitness.eq ind.fit x.fit = false := by
       intro x hx
       cases hq : Fitness.eq ind.fit x.fit with
       | false => rfl
       | true =>
         have := (eq_iff _ _).1 hq
-        rw [this, hsem.anti hofer hhof x hx] at hdom; exact absurd hdom (by simp)
+        rw [this, hanti hofer hhof x hx] at hdom; exact absurd hdom (by simp)
     have hsc := scanA sim ind h.items 0 {} rfl h1 h2 ⟨hofer, hhof, hdom⟩
     simp only [pfStep, hsc, List.reverse_nil, removeAll, Bool.not_true, Bool.false_and,
       Bool.false_eq_true, ↓reduceIte, Option.some.injEq] at e
     subst e
-    refine ⟨hsem.anti, hsem.notwin, ?_⟩
+    refine ⟨hanti, fun _ hnt => hnt, fun _ hcov => ?_⟩
     intro x hx
     rw [List.mem_append, List.mem_singleton] at hx
     rcases hx with hx | rfl
-    · exact hsem.cover x hx
+    · exact hcov x hx
     · exact Or.inl ⟨hofer, hhof, hdom⟩
   · have hnd : ∀ x ∈ h.items, dom x.fit ind.fit = false := by
       intro x hx
@@ -287,16 +285,16 @@ theorem pfStep_sem {n base : Nat} {U seen : List (Ind G α)} {h h' : HoF G α} (
       have htw' := (eqtwin_iff _ _).1 htw
       have h2 : ∀ x ∈ h.items, dom ind.fit x.fit = false := by
         intro x hx
-        rw [htw'.1]; exact hsem.anti t ht x hx
+        rw [htw'.1]; exact hanti t ht x hx
       have hsc := scanC sim ind h.items 0 {} hnd h2 ⟨t, ht, htw⟩
       simp only [pfStep, hsc, List.reverse_nil, removeAll, Bool.not_true, Bool.and_false,
         Bool.false_eq_true, ↓reduceIte, Option.some.injEq] at e
       subst e
-      refine ⟨hsem.anti, hsem.notwin, ?_⟩
+      refine ⟨hanti, fun _ hnt => hnt, fun _ hcov => ?_⟩
       intro x hx
       rw [List.mem_append, List.mem_singleton] at hx
       rcases hx with hx | rfl
-      · exact hsem.cover x hx
+      · exact hcov x hx
       · exact Or.inr ⟨t, ht, htw'⟩
     · -- no dominator, no twin: the dominated members leave, `ind` enters
       have hnt : ∀ x ∈ h.items, (Fitness.eq ind.fit x.fit && sim ind x) = false := by
@@ -320,7 +318,7 @@ theorem pfStep_sem {n base : Nat} {U seen : List (Ind G α)} {h h' : HoF G α} (
         intro x; rw [r4, List.mem_filter]; simp
       have hsub1 : h1.items.Sublist h.items := by rw [r4]; exact List.filter_sublist
       have copy_fit : (copyInd h1.next ind).fit = ind.fit := rfl
-      refine ⟨?_, ?_, ?_⟩
+      refine ⟨?_, fun hh hnotwin => ?_, fun hh hcov => ?_⟩
       · -- antichain
         intro a ha b hb
         rw [mem_insert] at ha hb
@@ -328,10 +326,11 @@ theorem pfStep_sem {n base : Nat} {U seen : List (Ind G α)} {h h' : HoF G α} (
         · exact dom_irrefl _
         · rw [copy_fit]; exact ((hmem1 b).1 hb).2
         · rw [copy_fit]; exact hnd a ((hmem1 a).1 ha).1
-        · exact hsem.anti a ((hmem1 a).1 ha).1 b ((hmem1 b).1 hb).1
+        · exact hanti a ((hmem1 a).1 ha).1 b ((hmem1 b).1 hb).1
       · -- no twins
+        show List.Pairwise _ (insert h1 ind).items
         rw [insert_items]
-        apply pairwise_insertAt _ _ _ (List.Pairwise.sublist hsub1 hsem.notwin)
+        apply pairwise_insertAt _ _ _ (List.Pairwise.sublist hsub1 hnotwin)
         · intro x hx ⟨hf, hs'⟩
           have hx' := ((hmem1 x).1 hx).1
           have : sim ind x = true := by
@@ -357,8 +356,8 @@ theorem pfStep_sem {n base : Nat} {U seen : List (Ind G α)} {h h' : HoF G α} (
         intro x hx
         rw [List.mem_append, List.mem_singleton] at hx
         rcases hx with hx | rfl
-        · have hlx : x.fit.wvalues.length = n := hh.len x (hU x (by simp [hx]))
-          rcases hsem.cover x hx with ⟨it, hit, hd⟩ | ⟨it, hit, ht⟩
+        · have hlx : x.fit.wvalues.length = n := hlen x (hU x (by simp [hx]))
+          rcases hcov x hx with ⟨it, hit, hd⟩ | ⟨it, hit, ht⟩
           · cases hq : dom ind.fit it.fit with
             | false => exact Or.inl ⟨it, (mem_insert _ _ _).2 (Or.inr ((hmem1 it).2 ⟨hit, hq⟩)), hd⟩
             | true =>
